@@ -76,7 +76,8 @@ fn max_depth_for(class: u8) -> u64 {
     match class {
         0 => 6,
         1 => 4,
-        _ => 3,
+        2 => 3,
+        _ => 2,
     }
 }
 
@@ -164,6 +165,25 @@ fn emit_go(rng: &mut Rng, case: &mut Case, class: u8, allow_infinite: bool) {
             case.raw("ucinewgame");
         } else {
             case.raw("stop");
+        }
+        case.push(GK::AwaitBest);
+    } else if kind >= 95 {
+        // a command arriving at the very instant the timer of this search fires
+        let polls = rng.log_uniform(1, 2_000);
+        let mt = movetime_for(case, polls);
+        let nc = case.params.node_cost as i64;
+        let jitter = *rng.pick(&[-2i64, -1, 0, 0, 0, 1, 2, 5]) * nc;
+        case.raw(format!("go movetime {}", mt));
+        case.push(GK::Delay((((mt - 5) * 1_000_000) as i64 + jitter).max(0) as u64));
+        match rng.below(5) {
+            0 => case.raw("stop"),
+            1 => case.raw("isready"),
+            2 => case.raw("ucinewgame"),
+            3 => {
+                case.push(GK::PosCur);
+                case.raw("go depth 1");
+            }
+            _ => case.raw("show"),
         }
         case.push(GK::AwaitBest);
     } else {
@@ -984,8 +1004,13 @@ pub fn gen(prop: &str, seed: u64, thorough: bool) -> Case {
     match prop {
         "C14" => {
             if seed % 16 == 15 {
-                // base session for a systematic single-preemption sweep
+                // base session for a systematic single-preemption sweep (not on queen-heavy roots: the session is re-run
+                // once per preemption point)
                 let mut c = gen_session("C14", seed, 0, true);
+                let heavy = c.steps.iter().any(|s| matches!(&s.k, GK::NewGame { root, .. } if ROOTS.iter().any(|r| r.class == 3 && root_cmd(r) == *root)));
+                if heavy {
+                    return c;
+                }
                 c.family = "session-mix/single-preemption-sweep".into();
                 c.tags.push("preempt1".into());
                 c.params.policy = Policy::Np;
